@@ -244,7 +244,7 @@ impl Property for C05 {
         v
     }
     fn plan(&self, tier: Tier) -> Vec<Stage<Case>> {
-        let mut plan = vec![Stage::random("random", tier.pick(120_000, 2_000_000), case_strategy)];
+        let mut plan = vec![Stage::random("random", tier.pick(300_000, 10_000_000), case_strategy)];
         // all 256 day counts x both flags x the three counted operations on sampled
         // (built-in calendar, date) pairs: deterministic enumeration
         let ndates = tier.pick(6usize, 150);
@@ -283,7 +283,7 @@ impl Property for C05 {
         "random stage: (calendar as in C04 with holidays spread over +-270 days, start date both business and non-business, operation in {add_bus_days, lag, bus_date_range, add_days}, day count over the whole i8 range weighted to 0, +-1, +-2, +-127, -128, settlement flag); enumeration stage: all 256 day counts x both flags x {add_bus_days, lag, add_days} on sampled (built-in calendar, date) pairs. Oracle: count model by day-by-day walk over the object's own predicates, inverse law, error contract for non-business starts. Non-trivial: |n| >= 2 and at least one non-business day crossed (add/lag), a range containing non-business days, an add_days whose target needed adjustment, or an error-contract case.".into()
     }
     fn floors(&self, tier: Tier) -> Vec<Floor> {
-        let n = tier.pick(120_000u64, 2_000_000);
+        let n = tier.pick(300_000u64, 10_000_000);
         vec![
             Floor { label: "n:extreme", min: n / 100 },
             Floor { label: "settlement-adjusted", min: n / 200 },
